@@ -7,9 +7,9 @@ cd $WT || exit 2
 git diff -- dassh > /tmp/seed_$P.diff
 cmp -s /tmp/seed_$P.diff _seed/patch.diff || echo "note: patch.diff differs from worktree diff"
 echo "--- demo on modified tree"; PYTHONPATH=$WT timeout 900 /venv/bin/python _seed/demo.py > /tmp/seed_$P.mod.out 2>&1; echo "exit $?"; tail -3 /tmp/seed_$P.mod.out
-git stash -q -- dassh
+git apply -R _seed/patch.diff || { echo 'cannot reverse patch'; exit 2; }
 echo "--- demo on clean tree"; PYTHONPATH=$WT timeout 900 /venv/bin/python _seed/demo.py > /tmp/seed_$P.clean.out 2>&1; echo "exit $?"; tail -2 /tmp/seed_$P.clean.out
-git stash pop -q
+git apply _seed/patch.diff
 echo "--- checks on /repo with patch"
 git -C /repo status --porcelain | grep -v '^??' && { echo "/repo dirty"; exit 2; }
 git -C /repo apply $WT/_seed/patch.diff || exit 2
